@@ -608,6 +608,37 @@ func shorthandBlockTypesSet() bool {
 //@   ensures[reader-stays-well-formed] brOK(r) && verif_field_len(r, "s") == old(verif_field_len(r, "s")) && verif_field_int(r, "i") >= old(verif_field_int(r, "i"))
 //@   modifies obj(r)
 
+// ---- C08: the uint64 window a call's parameters and results cross the boundary in.
+// SplitCallStack hands out exactly the first ParamNumInUint64 / ResultNumInUint64 slots of the caller's stack
+// (both windows start at slot 0 of the same array), or fails when the stack is too short for either.
+//@ prop C08
+//@ case windows SplitCallStack(ft *FunctionType, stack []uint64) (params []uint64, results []uint64, err error)
+//@   requires ft != nil && ft.ParamNumInUint64 >= 0 && ft.ResultNumInUint64 >= 0
+//@   ensures[fails-exactly-when-too-short] (err == nil) == (ft.ParamNumInUint64 <= len(stack) && ft.ResultNumInUint64 <= len(stack))
+//@   ensures[one-slot-per-uint64] err == nil ==> len(params) == ft.ParamNumInUint64 && len(results) == ft.ResultNumInUint64
+//@   ensures[windows-start-at-slot-0] err == nil ==> (ft.ParamNumInUint64 > 0 ==> verif_slice_at(params, stack, 0)) && (ft.ResultNumInUint64 > 0 ==> verif_slice_at(results, stack, 0))
+//@   ensures[failure-hands-out-nothing] err != nil ==> len(params) == 0 && len(results) == 0
+//@   modifies nothing
+
+// CacheNumInUint64: every value takes one slot, a v128 two - so the cached counts lie between the number of
+// values and twice that, and equal it when no v128 is present (the exact count needs a recursive sum, which
+// the contract language does not have).
+//@ case slot-counts (f *FunctionType) CacheNumInUint64()
+//@   requires f.ParamNumInUint64 == 0 && f.ResultNumInUint64 == 0 && len(f.Params) < 1<<40 && len(f.Results) < 1<<40
+//@   ensures[at-least-one-slot-per-value] f.ParamNumInUint64 >= len(f.Params) && f.ResultNumInUint64 >= len(f.Results)
+//@   ensures[at-most-two-slots-per-value] f.ParamNumInUint64 <= 2*len(f.Params) && f.ResultNumInUint64 <= 2*len(f.Results)
+//@   ensures[one-slot-each-without-v128] (forall j int :: 0 <= j && j < len(f.Params) ==> f.Params[j] != ValueTypeV128) ==> f.ParamNumInUint64 == len(f.Params)
+//@   ensures[two-slots-each-when-all-v128] (forall j int :: 0 <= j && j < len(f.Params) ==> f.Params[j] == ValueTypeV128) ==> f.ParamNumInUint64 == 2*len(f.Params)
+//@   modifies f.ParamNumInUint64, f.ResultNumInUint64
+//@   loop 0 (rangeindex int)
+//@     invariant -1 <= rangeindex && rangeindex < len(f.Params) && f.ResultNumInUint64 == 0
+//@     invariant rangeindex+1 <= f.ParamNumInUint64 && f.ParamNumInUint64 <= 2*(rangeindex+1)
+//@     invariant (forall j int :: 0 <= j && j <= rangeindex ==> f.Params[j] != ValueTypeV128) ==> f.ParamNumInUint64 == rangeindex+1
+//@     invariant (forall j int :: 0 <= j && j <= rangeindex ==> f.Params[j] == ValueTypeV128) ==> f.ParamNumInUint64 == 2*(rangeindex+1)
+//@   loop 1 (rangeindex int)
+//@     invariant -1 <= rangeindex && rangeindex < len(f.Results)
+//@     invariant rangeindex+1 <= f.ResultNumInUint64 && f.ResultNumInUint64 <= 2*(rangeindex+1)
+
 // ---- C14: a decoded memory is accepted exactly when minimum <= maximum <= limit and the capacity lies
 // between the minimum and the limit.
 //@ prop C14 C03
